@@ -501,7 +501,7 @@ func judgeRT(section string, c rtCase, im rtImpl, a1, a2 string) string {
 	}
 	if eq && strings.HasPrefix(m1.td, "diff") {
 		eq = false
-		res.Mismatch(vh.Mismatch{Section: section, Function: "lql.ParseLql on a TRUNCATE statement vs the direct parser (Logrange.Lql.directTruncate)", Input: c, Impl: implS, Model: m1.td})
+		res.Mismatch(vh.Mismatch{Section: section, Function: "lql.ParseLql vs the direct statement parser (Logrange.Lql.directLql)", Input: c, Impl: implS, Model: m1.td})
 	}
 	if !im.accepted {
 		if c.Expect == "rejected" {
@@ -512,9 +512,16 @@ func judgeRT(section string, c rtCase, im rtImpl, a1, a2 string) string {
 	if c.Expect == "rejected" {
 		res.Dist(res.Section(section, "", ""), "accepted although the case expects rejection")
 	}
-	if eq && strings.HasPrefix(m1.td, "same") && len(m1.td) == 6 && len(m1.classes) == 0 && !im.unstable && m1.td != "same11" {
-		// the decidable hypotheses of token_roundtrip_truncate / print_parse_truncate_partial on the parser's image
-		res.Mismatch(vh.Mismatch{Section: section, Function: "hypotheses of print_parse_truncate_partial on the parser's image (wf, lexable)", Input: c, Impl: "same11", Model: m1.td})
+	if eq && strings.HasPrefix(m1.td, "same:") && len(m1.td) == 7 && !im.unstable && !m1.classes["F12b"] && !m1.classes["F12e"] {
+		// the decidable hypotheses of C12_wf (wfLql: the parser's image minus F12b/F12e) and of the character-level
+		// theorems (Lexable: additionally outside F12a) must hold on every accepted statement outside those classes
+		want := "11"
+		if m1.classes["F12a"] {
+			want = "10"
+		}
+		if m1.td[5:] != want {
+			res.Mismatch(vh.Mismatch{Section: section, Function: "hypotheses of C12_wf / print_parse on the parser's image (wfLql, lexable)", Input: c, Impl: "same:" + want, Model: m1.td})
+		}
 	}
 	if eq && !im.unstable && im.printed != m1.printed {
 		eq = false
